@@ -714,6 +714,16 @@ def contains(I: Interp, container: V, x: V) -> Any:
 
 # --------------------------------------------------------------------------- arithmetic
 def binop(I: Interp, op: ast.operator, a: V, b: V) -> V:
+    if isinstance(op, ast.BitOr) and isinstance(a, VDict):
+        # dict | mapping: right operand wins; an external mapping (os.environ) contributes
+        # unknown keys, which never shadow what the code adds afterwards by item assignment
+        out = VDict(list(a.items))
+        if isinstance(b, VDict):
+            for k_, v_ in b.items:
+                dict_set(I, out, k_, v_)
+            return out
+        if isinstance(b, VConst) and hasattr(b.py, "keys"):
+            return out
     if isinstance(a, VBytes) and isinstance(b, VBytes) and isinstance(op, ast.Add):
         return VBytes(z3.Concat(a.t, b.t), a.mutable)
     if isinstance(a, VBytes) and is_intlike(b) and isinstance(op, ast.Mult):
@@ -1393,6 +1403,14 @@ def _noop(I: Interp, args: list[V], kwargs: dict[str, V]) -> V:
 
 
 def lazy_attr(I: Interp, obj: VObj, name: str) -> V:
+    stubs = getattr(I.ex, "stubs", {})
+    if (obj.tag, name) in stubs:
+        return VBound("stub:" + name, obj)
+    mk = getattr(I.ex, "stub_attrs", {}).get((obj.tag, name))
+    if mk is not None:
+        v = mk(I, obj)
+        obj.fields[name] = v
+        return v
     for h in LAZY_ATTR_HOOKS:
         r = h(I, obj, name)
         if r is not None:
@@ -1952,6 +1970,8 @@ def native_attr(I: Interp, v: V, name: str) -> V:
 
 def native_method(I: Interp, recv: V, name: str, args: list[V], kwargs: dict[str, V]) -> V:
     from . import strings
+    if name.startswith("stub:") and isinstance(recv, VObj):
+        return I.ex.stubs[(recv.tag, name[5:])](I, recv, args, kwargs)
     if name == "__base_init__" and isinstance(recv, VObj):
         # object.__init__ / BaseException.__init__
         if issubclass(recv.cls, BaseException):
